@@ -20,7 +20,7 @@ from props._slicing_util import canon_slice, compositions, enc_slice, random_chu
 PROP = "C21"
 READY = True
 DRIVER = "dm_slicing"
-LEAN_MODULES = ["DaskModel.Props.C21"]
+LEAN_MODULES = ["DaskModel.Props.C21", "DaskModel.Props.C20Cache"]
 CASE_TIMEOUT_S = 30
 LEVEL_TEXT = (
     "Lean 4 theorems (no size bound) over transliterations of parse_assignment_indices (slice branch) and of "
@@ -37,7 +37,14 @@ LEVEL_TEXT = (
     "is modelled (SetItemND.planND) and diffed block by block against the real plan, not proved. Validated only: "
     "dask-array indices, the `where` path for full-shape masks, the chunk function `setitem` (function level: equals "
     "NumPy on a copy, never writes into its input block, result does not alias it), values/masks/indices derived "
-    "from the same array under the sync and threaded schedulers with the source re-computed afterwards."
+    "from the same array under the sync and threaded schedulers with the source re-computed afterwards. Histories on ONE Array object: the cached attributes "
+    "(_cached_keys, _key_array, numblocks, npartitions, shape, ndim, size) are modelled as a state machine (ArrayCache: "
+    "setters and cached reads of class Array); for every history of cached reads, __setitem__-style and out=-style "
+    "in-place mutations and block-count-preserving _chunks assignments every read returns what a fresh array with the "
+    "current name and chunks returns (history_reads_fresh; the invalidation in the _name setter is shown necessary); the "
+    "machine is diffed step by step (answers and WHICH caches are filled) against real Array objects, and API-level "
+    "histories (.blocks/.partitions/keys/to_delayed/vindex/getitem around x[i]=v, out=x, compute_chunk_sizes) are "
+    "compared with NumPy with the invariant evaluated on the object after every step."
 )
 LEVEL_NOTE = (
     "Trusted: Lean kernel; the hand-written models SetItem / SetItemND, diffed on every run against "
@@ -692,8 +699,15 @@ def case_chunkfn(ctx, inp):
         ctx.branch("chunkfn-readonly-input")
 
 
+def case_hist(ctx, inp):
+    """A history on ONE Array object (accessors that fill cached attributes — .blocks, .partitions, __dask_keys__,
+    to_delayed, … — then x[idx] = v / out=x, then the accessors again); shared with C20 (props/c20.py::case_hist)."""
+    from props.c20 import case_hist as _h
+    _h(ctx, inp)
+
+
 CASES = {"parse": case_parse, "plan": case_plan, "api": case_api, "mask": case_mask, "selfref": case_selfref,
-         "chunkfn": case_chunkfn}
+         "chunkfn": case_chunkfn, "hist": case_hist}
 
 
 # --------------------------------------------------------------------------------------
@@ -849,6 +863,12 @@ def generate(ctx):
             for pair in (([2, None, None], [None, -2, None]), ([None, -2, None], [2, None, None])):
                 yield "selfref", {"shape": [12], "chunks": [[3, 3, 3, 3]], "src": src, "scheduler": sched,
                                   "ops": [{"kind": "shift", "dst": [pair[0]], "src": [pair[1]]}]}
+    # histories on one Array object: assignment between two accesses of cached attributes (.blocks / keys / to_delayed)
+    from props.c20 import _rand_hist
+    yield "hist", {"chunks": [[2, 2, 2]], "ops": [{"op": "blocks", "idx": [("int", 1)]}, {"op": "setitem", "idx": [2], "value": -1},
+                                                  {"op": "blocks", "idx": [("int", 1)]}, {"op": "delayed"}, {"op": "keys"}]}
+    for _ in range(ctx.n(60, 1200)):
+        yield "hist", _rand_hist(rng, force_pattern=True)
     for _ in range(ctx.n(150, 2500)):
         yield "selfref", _rand_selfref(rng)
     if thorough:
